@@ -177,6 +177,10 @@ def freelist(ctx):
             for b2, c2 in v.calls.items():
                 if c2.name.split("::")[-1] in ("retain", "clear") and c2.term["args"] and pr.operand(c2.term["args"][0]) == "param:self." + fl:
                     fixes.add(("t", b2))
+                # `let old = mem::take(&mut self.list); for id in old { if id < len { self.list.push(id) } }`: the list is
+                # emptied, what goes back on it is judged where it is pushed (R-OWN)
+                if c2.name.split("::")[-1] in ("take", "replace") and "mem::" in c2.name and c2.term["args"] and pr.operand(c2.term["args"][0]) == "param:self." + fl:
+                    fixes.add(("t", b2))
             after = v.pg.reach_after(("t", bb), avoid=fixes | set(v.all_err_nodes()))
             rets = [x for x in after if x[0] == "t" and f.blocks[x[1]]["term"]["t"] == "return"]
             key = "R-FREELIST/%s/%s-%s" % (f.path, m.group(1), short)
@@ -1042,7 +1046,8 @@ def namelen(pid):
                 if not c.name.endswith("write_le_u16") or len(c.term["args"]) < 2:
                     continue
                 val = prw.operand(c.term["args"][1])
-                m = re.match(r"^Mul\(Add\((.*),const:1\),const:2\)$", val) or re.match(r"^Mul\(const:2,Add\((.*),const:1\)\)$", val) or re.match(r"^Add\(Mul\((.*),const:2\),const:2\)$", val)
+                m = re.match(r"^Mul\(Add\((.*),const:1\),const:2\)$", val) or re.match(r"^Mul\(const:2,Add\((.*),const:1\)\)$", val) or re.match(r"^Add\(Mul\((.*),const:2\),const:2\)$", val) \
+                    or re.match(r"^Mul\(Add\(const:1,(.*)\),const:2\)$", val) or re.match(r"^Mul\(const:2,Add\(const:1,(.*)\)\)$", val)
                 if not m:
                     continue
                 nw += 1
@@ -1082,7 +1087,7 @@ def nameinv(pid):
             # `name = <constant>.to_string()` and the like: a call whose result is stored in `name` and whose
             # arguments are constants only
             t = c.term
-            if c.kind == "call" and not t["dest"]["proj"] and f.debug_names().get(t["dest"]["local"]) == "name" and t["args"] and all(re.match(r"^const:", pr.operand(a)) for a in t["args"]):
+            if c.kind == "call" and not t["dest"]["proj"] and re.match(r"^name(__\d+)?$", f.debug_names().get(t["dest"]["local"]) or "") and t["args"] and all(re.match(r"^const:", pr.operand(a)) for a in t["args"]):
                 barriers.add(("t", bb))
         from rules_sink import _edge_label
         names = f.debug_names()
@@ -1090,7 +1095,7 @@ def nameinv(pid):
             if blk["cleanup"]:
                 continue
             for i, st in enumerate(blk["stmts"]):
-                if st["s"] == "assign" and not st["place"]["proj"] and names.get(st["place"]["local"]) == "name":
+                if st["s"] == "assign" and not st["place"]["proj"] and re.match(r"^name(__\d+)?$", names.get(st["place"]["local"]) or ""):
                     if re.match(r"^[^()]*\(const:[^()]*\)$", pr._def((b, i, st), 0, ())):
                         barriers.add(("s", b, i))
             if blk["term"]["t"] != "switch":
@@ -1098,7 +1103,7 @@ def nameinv(pid):
             for k, tgt in enumerate(f.succ(b)):
                 val, vals = _edge_label(f, b, k)
                 for a in g.describe_all(b, val, vals):
-                    if re.match(r"^(!\(Ne|\(Eq)\(var:name,const:(\w+::)*ROOT_DIR_NAME\)\)$", a):
+                    if re.match(r"^(!\(Ne|\(Eq)\(var:name(__\d+)?,const:(\w+::)*ROOT_DIR_NAME\)\)$", a):
                         barriers.update(pg.edge_node(b, tgt))
         oks = []
         for bb, blk in enumerate(f.blocks):
@@ -1711,8 +1716,23 @@ def seekbound(pid):
                 continue
             pr = Prov(f)
             g = _guards(ctx, f)
-            names = {nm: l for l, nm in f.debug_names().items()}
-            l = names.get("new_pos")
+            # the variable that holds the new position: the payload of the function's Ok return (whatever it is called)
+            l = None
+            for blk_ in f.blocks:
+                if blk_["cleanup"]:
+                    continue
+                for st_ in blk_["stmts"]:
+                    if st_["s"] == "assign" and st_["place"]["local"] == 0 and not st_["place"]["proj"] and st_["rv"]["r"] == "aggregate" and st_["rv"].get("variant") == "Ok" \
+                            and st_["rv"]["ops"] and st_["rv"]["ops"][0]["k"] in ("copy", "move") and not st_["rv"]["ops"][0]["place"]["proj"]:
+                        l = st_["rv"]["ops"][0]["place"]["local"]
+            hops_ = 0
+            while l is not None and hops_ < 6 and l not in f.debug_names():
+                ds_ = pr.defs.get(l, [])
+                if len(ds_) == 1 and ds_[0][1] != "t" and ds_[0][2]["rv"]["r"] == "use" and ds_[0][2]["rv"]["op"]["k"] in ("copy", "move") and not ds_[0][2]["rv"]["op"]["place"]["proj"]:
+                    l = ds_[0][2]["rv"]["op"]["place"]["local"]
+                    hops_ += 1
+                else:
+                    break
             if l is None:
                 continue
             for d in pr.defs.get(l, []):
@@ -1761,6 +1781,8 @@ def wholetable(pid):
                 short = c.name.split("::")[-1]
                 if short in ("iter", "iter_mut", "into_iter") and c.term["args"] and re.search(tables, pr.operand(c.term["args"][0])) and "Iterator" not in c.name.split("::")[-2:-1]:
                     n += 1
+                if short == "filter" and any(c2.name.split("::")[-1] == "extend" and len(c2.term["args"]) == 2 and re.search(r"^param:self\.free_\w*sectors$", pr.operand(c2.term["args"][0])) and "filter(" in pr.operand(c2.term["args"][1]) for c2 in v.calls.values()):
+                    continue        # the rebuild of the free list picks the FREE cells out of the table: that is its job, not a narrowed check
                 if short in ("skip", "take", "step_by", "filter", "skip_while", "take_while", "nth", "split_at", "chunks", "split_first", "split_last") and c.term["args"] and re.search(tables, pr.operand(c.term["args"][0])):
                     res.fail(Finding(res.rule, "R-WHOLE/%s/%s" % (f.path, short), "%s walks %s through .%s(..): the elements left out are neither checked under strict validation nor repaired under permissive validation" % (f.path.split("::")[-1], re.search(tables, pr.operand(c.term["args"][0])).group(0)[6:], short), f, c.term["span"]))
         # the parser reads its tables whole as well: the FAT sectors are taken from the entire DIFAT (not from as many
